@@ -36,7 +36,7 @@ OWN_TAGS = ["none", "same-as-inherited", "extends-inherited", "own-keys-end-with
 DESTS = ["missing-no-template", "missing-template", "header-only", "header-blank", "block-nl", "block-no-nl",
          "block-two-blank", "block-then-section", "ends-with-section-header", "mentions-zid",
          "ends-with-section-header-no-nl", "missing-template-ending-in-section", "same-page",
-         "existing-and-matching-a-template"]
+         "existing-and-matching-a-template", "block-crlf"]
 MARKERS = [None, "x", "~"]
 
 
@@ -111,6 +111,9 @@ def build_dest(kind):
     if kind == "existing-and-matching-a-template":
         # the page exists AND a template pattern matches its name: it must be left as it is
         return "# Dest page\n\n- 240201#D1 dest note one\n- 240202#D2 dest note two\n", {r"dest\.zo": "dest.zot"}
+    if kind == "block-crlf":
+        # Windows line endings in the destination: every old line keeps its bytes
+        return "# Dest page\r\n\r\n- 240201#D1 dest note one\r\n- 240202#D2 dest note two\r\n", {}
     if kind == "mentions-zid":
         return f"# Dest page\n\n- 240201#D1 dest note about {MZ} and more\n", {}
     raise H.HarnessError(kind)
